@@ -24,6 +24,7 @@ import TLX.Drv.Dissect
 import TLX.Drv.MainLoop
 import TLX.Drv.QuicSession
 import TLX.Drv.Ingest
+import TLX.Drv.OutBytes
 
 def main (args : List String) : IO UInt32 := do
   match args with
@@ -48,4 +49,5 @@ def main (args : List String) : IO UInt32 := do
   | ["mainloop"] => TLX.Drv.MainLoop.main; return 0
   | ["quicsession"] => TLX.Drv.QuicSession.main; return 0
   | ["ingest"] => TLX.Drv.Ingest.main; return 0
+  | ["outbytes"] => TLX.Drv.OutBytes.main; return 0
   | _ => IO.eprintln "usage: tlxdriver <module>"; return 2
